@@ -296,3 +296,102 @@ def _later(a, b):
     if b == 'T':
         return False
     return a > b
+
+
+# ---------------------------------------------------------------------------------------------------------
+def _split_top(ty):
+    """generic arguments of `Path<A, B>` at top level"""
+    if '<' not in ty or not ty.endswith('>'):
+        return []
+    inner = ty[ty.index('<') + 1:-1]
+    out, depth, cur = [], 0, ''
+    for ch in inner:
+        if ch in '<([':
+            depth += 1
+        elif ch in '>)]':
+            depth -= 1
+        if ch == ',' and depth == 0:
+            out.append(cur.strip())
+            cur = ''
+        else:
+            cur += ch
+    if cur.strip():
+        out.append(cur.strip())
+    return out
+
+
+def lower_branch(f):
+    """`Try::branch(x)` on a Result / Option local all of whose definitions are explicit variant constructions (the
+    value a spliced-in helper returned) is the match it stands for:
+        Ok(v) / Some(v) -> Continue(v)         Err(e) / None -> Break(<the residual>)
+    so that jump threading can connect each construction with the edge it takes."""
+    blocks = f['blocks']
+    defs = {}
+    for b in blocks:
+        for st in b['stmts']:
+            if st['s'] == 'assign' and not st['pl']['p']:
+                defs.setdefault(st['pl']['l'], []).append(st['rv'])
+        t = b['term']
+        if t['t'] == 'call' and not t['dest']['p']:
+            defs.setdefault(t['dest']['l'], []).append(None)
+
+    def all_variant_defs(l, seen):
+        if l in seen or len(seen) > 6:
+            return False
+        seen.add(l)
+        ds = defs.get(l)
+        if not ds:
+            return False
+        n_agg = 0
+        for rv in ds:
+            if rv is None:
+                return False
+            if rv['r'] == 'agg' and rv['kind'].get('k') == 'adt' and rv['kind'].get('variant') in ('Ok', 'Err', 'Some', 'None'):
+                n_agg += 1
+            elif rv['r'] == 'use' and rv['a'].get('o') in ('copy', 'move') and not rv['a']['pl']['p']:
+                if not all_variant_defs(rv['a']['pl']['l'], seen):
+                    return False
+            else:
+                return False
+        return True
+    n = 0
+    for bi in range(len(blocks)):
+        b = blocks[bi]
+        t = b['term']
+        if t['t'] != 'call' or (t['callee'].get('def') or '') != 'std::ops::Try::branch' or len(t['args']) != 1 or t['to'] is None or t['to'] < 0:
+            continue
+        a = t['args'][0]
+        if a.get('o') not in ('copy', 'move') or a['pl']['p'] or t['dest']['p']:
+            continue
+        l = a['pl']['l']
+        lty = a['pl']['ty']
+        if not all_variant_defs(l, set()) or len(defs.get(l, [])) < 1:
+            continue
+        is_opt = lty.startswith('std::option::Option<')
+        if not is_opt and not lty.startswith('std::result::Result<'):
+            continue
+        targs = _split_top(lty)
+        pay_ty = targs[0] if targs else '?'
+        line = t.get('line')
+        dest = t['dest']
+        adt = 'std::option::Option' if is_opt else 'std::result::Result'
+        good, bad_ = ('Some', 'None') if is_opt else ('Ok', 'Err')
+        gi, bd = (1, 0) if is_opt else (0, 1)
+        L = len(f['locals'])
+        f['locals'].append({'ty': 'isize', 'adt': ''})
+        f['locals'].append({'ty': pay_ty, 'adt': ''})
+        B = len(blocks)
+        pl = lambda l_, ty, p=None: {'l': l_, 'p': p or [], 'ty': ty}
+        cont = {'cleanup': False, 'stmts': [
+            {'s': 'assign', 'pl': pl(L + 1, pay_ty), 'rv': {'r': 'use', 'a': {'o': 'move', 'pl': pl(l, pay_ty, [{'k': 'downcast', 'v': gi, 'n': good}, {'k': 'field', 'i': 0, 'n': '0'}])}}, 'line': line, 'exp': True},
+            {'s': 'assign', 'pl': copy.deepcopy(dest), 'rv': {'r': 'agg', 'kind': {'k': 'adt', 'path': 'std::ops::ControlFlow', 'variant': 'Continue', 'fields': ['0']}, 'ops': [{'o': 'move', 'pl': pl(L + 1, pay_ty)}]}, 'line': line, 'exp': True}],
+            'term': {'t': 'goto', 'to': t['to']}}
+        brk = {'cleanup': False, 'stmts': [
+            {'s': 'assign', 'pl': copy.deepcopy(dest), 'rv': {'r': 'agg', 'kind': {'k': 'adt', 'path': 'std::ops::ControlFlow', 'variant': 'Break', 'fields': ['0']}, 'ops': [{'o': 'move', 'pl': pl(l, lty)}]}, 'line': line, 'exp': True}],
+            'term': {'t': 'goto', 'to': t['to']}}
+        unr = {'cleanup': False, 'stmts': [], 'term': {'t': 'unreachable'}}
+        blocks.extend([cont, brk, unr])
+        b['stmts'].append({'s': 'assign', 'pl': pl(L, 'isize'), 'rv': {'r': 'discr', 'pl': pl(l, lty), 'adt': adt}, 'line': line, 'exp': True})
+        b['term'] = {'t': 'switch', 'd': {'o': 'move', 'pl': pl(L, 'isize')}, 'targets': [[str(gi), B], [str(bd), B + 1]], 'otherwise': B + 2, 'line': line, 'exp': True}
+        n += 1
+    return n
